@@ -61,6 +61,29 @@ pub fn run(args: &Args) {
     let excl = name_list(&mut rng, &all);
     let incl = name_list(&mut rng, &all);
     let got: Vec<String> = filtered_rules(get_all_rules(), tags.clone(), excl.clone(), incl.clone()).iter().map(|r| r.code().to_string()).collect();
+    // the list of rules to choose from is the caller's: in any order, and with rules of the caller's own, the selection
+    // is the same set, sorted by code
+    {
+      let mut supplied = get_all_rules();
+      match i % 3 {
+        0 => supplied.reverse(),
+        1 => rng.shuffle(&mut supplied),
+        _ => {
+          rng.shuffle(&mut supplied);
+          let (mut with_own, _) = with_spy(vec![], false);
+          supplied.insert(rng.below(supplied.len() + 1), with_own.remove(0));
+        }
+      }
+      let supplied_kind = ["reversed", "shuffled", "shuffled+own-rule"][i % 3];
+      let got2: Vec<String> = filtered_rules(supplied, tags.clone(), excl.clone(), incl.clone()).iter().map(|r| r.code().to_string()).collect();
+      let mut sorted2 = got2.clone();
+      sorted2.sort();
+      let builtin2: Vec<String> = got2.iter().filter(|c| all.contains(c)).cloned().collect();
+      if sorted2 != got2 || builtin2 != got {
+        out.found("C15", "selection-depends-on-supplied-list-order", &format!("{}", json!([tags, excl, incl])), json!({"tags": tags, "excl": excl, "incl": incl, "from_registry_order": got, "from_supplied_order": got2, "supplied": supplied_kind}));
+      }
+      out.count("supplied-list-permuted");
+    }
     out.count(&format!("tags={}", tags.as_ref().map(|t| t.len().to_string()).unwrap_or("none".into())));
     out.count(&format!("excl={}", excl.as_ref().map(|t| if t.is_empty() { "empty" } else { "some" }).unwrap_or("none")));
     out.count(&format!("incl={}", incl.as_ref().map(|t| if t.is_empty() { "empty" } else { "some" }).unwrap_or("none")));
